@@ -30,6 +30,16 @@ CLAIMED = {
         note="A1, A5, A7 (no division by a literal 0); the memo slot _degree is written only by Expression.degree (scan); "
              "_compute_degree_iterative's stack discipline is bounded (C15); known findings D6, D7",
         design="6 C04"),
+    "C05": dict(
+        text="The LP extraction routines (_extract_constant_impl, _extract_all_coefficients_impl with its three accumulation loops, "
+             "extract_all_linear_coefficients with its fast paths, _try_extract_fast_binop, extract_constant_term) are proved against the "
+             "pointwise statement of the property: for an arbitrary point x under an arbitrary injective index map, "
+             "dot(result', x) = dot(result, x) + m*(f(x) - f(0)) and constant = f(0); the ones/coefficients shortcuts need the "
+             "permutation-of-a-finite-sum lemma and are proved for every variable order.",
+        note="A1, A5, A6, A7; linearity hypothesis is the contract of is_linear (C04) restricted to the syntactic class LP extraction is "
+             "specified on; LinearProgramExtractor.extract_* and the LPData assembly are not yet under contract (listed in evidence); "
+             "known findings D9, D10, D11, D12",
+        design="6 C05"),
 }
 
 NOT_YET = "check not built yet (work in progress; see DESIGN.md section 6 for the plan)"
